@@ -90,13 +90,18 @@ def run_case(case):
                     st_, text = 75, '4.3.0 whole failure'
                 elif beh(k).get('whole') in ('mail5', 'eod5'):
                     st_, text = 1, '5.3.0 whole failure'
+                if v == 'hang' and not beh(k).get('whole'):
+                    # the delivery program never finishes for this recipient: the relay's timeout has to end the attempt
+                    lines.append('if [ "$r" = "r%d@d.example" ] && [ "$k" = "%d" ]; then sleep 30; exit 75; fi' % (i, k))
+                    continue
                 lines.append('if [ "$r" = "r%d@d.example" ] && [ "$k" = "%d" ]; then echo "%s"; [ %d = 0 ] && echo ok >> "%s/accepted.$r"; exit %d; fi'
                              % (i, k, text, st_, tmp, st_))
         lines.append('echo ok >> "%s/accepted.$r"; exit 0' % tmp)
         with open(prog, 'w') as f:
             f.write('\n'.join(lines) + '\n')
         os.chmod(prog, os.stat(prog).st_mode | stat.S_IEXEC)
-        relay = PipeRelay([prog, '{recipient}'], timeout=20)
+        hangs = any(v == 'hang' for b in rounds for v in b.values())
+        relay = PipeRelay([prog, '{recipient}'], timeout=(0.4 if hangs else 20))
         relay.per_recipient = kind == 'pipe'
         if kind == 'pipe-one':
             rcpts = rcpts[:1]
@@ -219,14 +224,16 @@ def run_case(case):
         for s in servers:
             s.stop()
         if tmp:
+            if kind in ('pipe', 'pipe-one') and any(v == 'hang' for b in rounds for v in b.values()):
+                os.system('pkill -f "%s" >/dev/null 2>&1' % tmp)
             shutil.rmtree(tmp, ignore_errors=True)
     return out
 
 
 _beh = st.fixed_dictionaries({}, optional={
     'all': st.sampled_from(['ok', 'rcpt4', 'rcpt5']),
-    'r0': st.sampled_from(['ok', 'rcpt4', 'rcpt5', 'eod4', 'eod5']),
-    'r1': st.sampled_from(['ok', 'rcpt4', 'rcpt5', 'eod4']),
+    'r0': st.sampled_from(['ok', 'rcpt4', 'rcpt5', 'eod4', 'eod5', 'hang']),
+    'r1': st.sampled_from(['ok', 'rcpt4', 'rcpt5', 'eod4', 'hang']),
     'r2': st.sampled_from(['ok', 'rcpt4', 'rcpt5']),
     'whole': st.sampled_from(['mail5', 'data4', 'eod4', 'eod5', 'drop', 'banner4']),
 })
